@@ -82,7 +82,8 @@ UNPROVED = (
     "proved per component, for all strings: idempotence in both modes and the four mode round trips for the "
     "path (path_modes_partial: absPath; pathClean when the first pass is quoted), userinfo items and fragment "
     "(opt_modes_partial) and the query (query_modes_partial) -- the round trips that start from quoted mode "
-    "under the explicit hypothesis cleanStr, which excludes exactly KF-C02-1's class (witnesses that the "
+    "under the explicit hypothesis cleanStr (for a query key / value: cleanItem, the same predicate for the safe set '/+' that "
+    "safely_quote_qsl quotes with since FX-C01-PLUS; a raw '+' and '%2B' are inside it), which excludes exactly KF-C02-1's class (witnesses that the "
     "full statements fail there are in Props/C02.lean); host idempotence; dot-segment insertion "
     "(canonPath factors through the resolved view); escape-equivalence (unquote_respects_equiv: %41 vs A, raw "
     "space vs %20, a non-ASCII character vs its escaped UTF-8 bytes). Whole function: idempotence in "
